@@ -1320,6 +1320,10 @@ class Controller:
         '''
 
         if self.link is None:
+            # Not attached to a link: refuse, but do answer the command
+            self._send_hci_command_status(
+                hci.HCI_ErrorCode.COMMAND_DISALLOWED_ERROR, command.op_code
+            )
             return None
         logger.debug(f'Connection request to {command.bd_addr}')
 
@@ -1442,6 +1446,10 @@ class Controller:
         '''
 
         if self.link is None:
+            # Not attached to a link: refuse, but do answer the command
+            self._send_hci_command_status(
+                hci.HCI_ErrorCode.COMMAND_DISALLOWED_ERROR, command.op_code
+            )
             return None
 
         if not (connection := self.classic_connections.get(command.bd_addr)):
@@ -1562,6 +1570,10 @@ class Controller:
         '''
 
         if self.link is None:
+            # Not attached to a link: refuse, but do answer the command
+            self._send_hci_command_status(
+                hci.HCI_ErrorCode.COMMAND_DISALLOWED_ERROR, command.op_code
+            )
             return None
 
         if not (
@@ -1609,6 +1621,10 @@ class Controller:
         '''
 
         if self.link is None:
+            # Not attached to a link: refuse, but do answer the command
+            self._send_hci_command_status(
+                hci.HCI_ErrorCode.COMMAND_DISALLOWED_ERROR, command.op_code
+            )
             return None
 
         if not (connection := self.classic_connections.get(command.bd_addr)):
@@ -1680,6 +1696,10 @@ class Controller:
         '''
 
         if self.link is None:
+            # Not attached to a link: refuse, but do answer the command
+            self._send_hci_command_status(
+                hci.HCI_ErrorCode.COMMAND_DISALLOWED_ERROR, command.op_code
+            )
             return None
 
         if connection := self.classic_connections.get(command.bd_addr):
@@ -2220,6 +2240,10 @@ class Controller:
         '''
 
         if not self.link:
+            # Not attached to a link: refuse, but do answer the command
+            self._send_hci_command_status(
+                hci.HCI_ErrorCode.COMMAND_DISALLOWED_ERROR, command.op_code
+            )
             return None
 
         logger.debug(f'Connection request to {command.peer_address}')
@@ -2274,6 +2298,10 @@ class Controller:
         See Bluetooth spec Vol 4, Part E - 7.8.66 LE Extended Create Connection Command
         '''
         if not self.link:
+            # Not attached to a link: refuse, but do answer the command
+            self._send_hci_command_status(
+                hci.HCI_ErrorCode.COMMAND_DISALLOWED_ERROR, command.op_code
+            )
             return
 
         # Check pending
@@ -2381,6 +2409,10 @@ class Controller:
         See Bluetooth spec Vol 4, Part E - 7.8.24 LE Enable Encryption Command
         '''
         if not self.link:
+            # Not attached to a link: refuse, but do answer the command
+            self._send_hci_command_status(
+                hci.HCI_ErrorCode.COMMAND_DISALLOWED_ERROR, command.op_code
+            )
             return
 
         # Check the parameters
@@ -2771,6 +2803,10 @@ class Controller:
         See Bluetooth spec Vol 4, Part E - 7.8.99 LE Create CIS Command
         '''
         if not self.link:
+            # Not attached to a link: refuse, but do answer the command
+            self._send_hci_command_status(
+                hci.HCI_ErrorCode.COMMAND_DISALLOWED_ERROR, command.op_code
+            )
             return None
 
         for cis_handle, acl_handle in zip(
@@ -2822,6 +2858,10 @@ class Controller:
         See Bluetooth spec Vol 4, Part E - 7.8.101 LE Accept CIS Request Command
         '''
         if not self.link:
+            # Not attached to a link: refuse, but do answer the command
+            self._send_hci_command_status(
+                hci.HCI_ErrorCode.COMMAND_DISALLOWED_ERROR, command.op_code
+            )
             return None
 
         if not (
